@@ -268,7 +268,9 @@ class OptionAlphabet:
     INT_VALUES = ["0", "1", "5", "500", "12", "1000", "+7", "007"]
     NEG_INT_VALUES = ["-1", "-3", "-10"]
     FLOAT_VALUES = ["0.5", "5", "1e-3", "2.5e2", "0", "100.0", "0.01", "3",
-                    "1.25", ".5", "5.", "1e+2", "+2.5", "1.4e+09", "2E3"]
+                    "1.25", ".5", "5.", "1e+2", "+2.5", "1.4e+09", "2E3",
+                    # 1 and 0 compare equal to True / False in Python
+                    "1", "1.0", "1e0", "0.0", "1", "0"]
     NEG_FLOAT_VALUES = ["-0.5", "-1", "-.25", "-10.75"]
 
     def __init__(self, app, sub):
